@@ -142,7 +142,7 @@ func installSymStringStubs(t *StubTable) {
 		return n
 	}
 	// upstream externals for these expect Go strings: with symbolic bytes run the real bodies
-	for _, name := range []string{"strings.Index", "strings.IndexByte", "strings.Count"} {
+	for _, name := range []string{"strings.Index", "strings.IndexByte", "strings.Count", "strings.ToLower", "strings.EqualFold", "strings.Replace"} {
 		name := name
 		t.Native[name] = func(i *interpreter, caller *frame, fn *ssa.Function, args []value) value {
 			if isSymString(args[0]) || (len(args) > 1 && isSymString(args[1])) {
